@@ -94,7 +94,7 @@ func properties() []Property {
 			}},
 		{ID: "C12", Assumptions: []string{aSummaries, aModels, aE3, "one inductive step from arbitrary pre-existing statistics: up to preEntries amount entries and preEntries count entries whose keys coincide with the new transfer's keys or differ in one component (source, destination protocol, destination counterparty, denom)", "pre-state invariant (bound): totals < 10^70, amounts < 10^60, counts < 2^64-1 — the statistics overflow paths (deliberately swallowed by DispatchPayload) are outside the claim", "denomination change is exercised with a harness controller registered under ACTION_SWAP on the internal route"},
 			Harnesses: []HarnessSpec{
-				{Name: "H_C12_step", Profile: "bit", Quick: b("preEntries", 1), Thorough: b("preEntries", 2), Covers: []string{"pre-state-built", "transfer-refused", "transfer-succeeded", "transaction-aborted"}},
+				{Name: "H_C12_step", Profile: "bit", Quick: b("preEntries", 1), Thorough: b("preEntries", 2), Covers: []string{"pre-state-built", "transfer-refused", "transfer-succeeded", "transaction-aborted", "discarded-dispatch-succeeded"}},
 			}},
 		{ID: "C13", Assumptions: []string{aSummaries, aModels, aE3, "ledgers of up to entries entries written through the component's own setters (arbitrary totals incl. one-sided and zero entries, two sources, five destinations, two denoms), plus one entry for EVERY uint32 destination domain for the index-key derivation", "listings run on the CollectionPaginate summary with the REAL option and transform closures and the real index closures; page limits, offsets, next-keys, reverse and count-total are library code (query.CollectionPaginate / collections iterators) and are NOT decided — only the unpaged request (default page size 100) is"},
 			Harnesses: []HarnessSpec{
@@ -122,6 +122,7 @@ func properties() []Property {
 			Harnesses: []HarnessSpec{
 				{Name: "H_C16_denom", Profile: "bit", Quick: b("segments", 5, "seglen", 1), Thorough: b("segments", 7, "seglen", 1), Covers: []string{"accepted", "refused", "refused-not-returning"}, TimeoutThorough: 2400},
 				{Name: "H_C16_ports", Profile: "bit", Covers: []string{"accepted", "refused"}},
+				{Name: "H_C16_sequence", Profile: "bit", Covers: []string{"accepted", "refused"}},
 				{Name: "H_C16_credit", Profile: "bit", Quick: b("rcvKinds", 2, "denomKinds", 4, "memoKinds", 1, "amountKinds", 1, "intKinds", 1, "fees", 1, "priors", 1, "pauses", 0, "ptMax", 0, "feeRcpKinds", 2, "faults", 0, "earlier", 0, "hypVariants", 1, "amountSpellings", 1), Covers: []string{"accepted", "not-accepted"}},
 			}},
 		{ID: "C17", Assumptions: []string{aSummaries, aModels, aE3, "the collections summary includes the key codec's refusal of 0x00 in non-terminal string key components", "genesis lists of at most list / entries elements, counterparty strings of at most strlen bytes, protocol / action ids any int32; JSON (un)marshalling of the genesis document and module.go glue are outside the claim"},
